@@ -309,6 +309,11 @@ func (ir *ifdReader) fastRead(n int) (buf []byte, err error) {
 	if ir.readErr != nil {
 		return nil, ir.readErr
 	}
+	if n > bufferLength {
+		// Larger than the value window of every path: a buffered reader would hand back the
+		// first window-full (a cut-off value), the unbuffered path nothing.
+		return nil, imagetype.ErrDataLength
+	}
 	if br, ok := ir.reader.(BufferedReader); ok {
 		if buf, err = br.Peek(n); err != nil {
 			ir.streamError(err)
